@@ -1,0 +1,30 @@
+//go:build verif
+
+package astisub
+
+// Verification hooks (build tag "verif"): exported pass-through wrappers around unexported
+// functions and read-only dumps of package-level tables. Add-only; never compiled without the tag.
+
+import (
+	"io"
+	"time"
+)
+
+// VerifFormatDuration exposes formatDuration
+func VerifFormatDuration(d time.Duration, sep string, digits int) string {
+	return formatDuration(d, sep, digits)
+}
+
+// VerifParseDuration exposes parseDuration
+func VerifParseDuration(s, sep string, digits int) (time.Duration, error) {
+	return parseDuration(s, sep, digits)
+}
+
+// VerifScanTokens runs the package's line scanner over r and returns the tokens and the scanner error
+func VerifScanTokens(r io.Reader) (tokens []string, err error) {
+	sc := newScanner(r)
+	for sc.Scan() {
+		tokens = append(tokens, sc.Text())
+	}
+	return tokens, sc.Err()
+}
